@@ -300,6 +300,18 @@ def decide(pid: str, tier: str, seed: int, verbose=False, only_units=None) -> in
                                     "clause_text": ob["note"][:160]})
             else:
                 failing.append((u, ob))
+    if os.environ.get("PYVC_WRITE_LEDGER") == "1":
+        # maintainer action on the pinned tree only (tools/make_ledger.sh); never done by a check run
+        lpath = os.path.join(ROOT, "ledger.json")
+        led = json.load(open(lpath)) if os.path.exists(lpath) else {}
+        cl = led.setdefault("clauses", {})
+        failing_keys = {f"{u}::{ob['clause']}" for u, ob in failing}
+        for u in sorted(results):
+            for ob in results[u]["obligations"]:
+                key = f"{u}::{ob['clause']}"
+                if ob["status"] == "unsat" and key not in failing_keys:
+                    cl.setdefault(key, []).append(pid) if pid not in cl.get(key, []) else None
+        json.dump(led, open(lpath, "w"), indent=0, sort_keys=True)
     ptypes_cache = {}
     cf = None
     for u, ob in failing:
